@@ -5,22 +5,854 @@ field re-splitting, decimal / octal / name / address text round trips.
 import DnsVerif.Model.MarshalText
 import DnsVerif.Props.C17
 
+set_option linter.unusedSimpArgs false
+
 namespace DnsVerif.MarshalText
 open DnsVerif DnsVerif.Codec DnsVerif.Name DnsVerif.Net
 
 /-! ### `convertLine` factors through `parseRecord` / `recordOut` -/
 
+macro "cl_simp" : tactic => `(tactic|
+  simp (decide := true) only [convertLine, parseRecord, if_true, if_false, ite_true, ite_false,
+    ↓reduceIte, or_self, or_false, false_or, true_or, or_true])
+
+macro "cl_loc" : tactic => `(tactic| (cl_simp; split <;> (rename_i h; rw [h]; rfl)))
+
+private theorem cl_net (cfg : Cfg) (rest : Bytes) :
+    convertLine cfg svcbOf (0x25 :: rest) = (parseRecord cfg (0x25 :: rest)).map (recordOut cfg) := by
+  cl_simp
+  split
+  · rename_i h; rw [h]; rfl
+  · rename_i h; rw [h]
+    split
+    · rename_i h2; rw [h2]; rfl
+    · rename_i h2; rw [h2]
+      simp only []
+      split
+      · rfl
+      · rfl
+
+private theorem cl_svcb (cfg : Cfg) (rest : Bytes) :
+    convertLine cfg svcbOf (0x42 :: rest) = (parseRecord cfg (0x42 :: rest)).map (recordOut cfg) := by
+  cl_simp
+  split
+  · rename_i h; rw [h]; rfl
+  · rename_i h; rw [h]
+    simp only [svcbOf]
+    cases hp : Svcb.fromText (fld (fields (0x42 :: rest)) 5) <;> rfl
+
+private theorem cl_https (cfg : Cfg) (rest : Bytes) :
+    convertLine cfg svcbOf (0x48 :: rest) = (parseRecord cfg (0x48 :: rest)).map (recordOut cfg) := by
+  cl_simp
+  split
+  · rename_i h; rw [h]; rfl
+  · rename_i h; rw [h]
+    simp only [svcbOf]
+    cases hp : Svcb.fromText (fld (fields (0x48 :: rest)) 5) <;> rfl
+
+private theorem cl_other (cfg : Cfg) (t : UInt8) (rest : Bytes)
+    (h1 : t ≠ 0x25) (h2 : t ≠ 0x5a) (h3 : t ≠ 0x2e) (h4 : t ≠ 0x26) (h5 : t ≠ 0x2b) (h6 : t ≠ 0x3d)
+    (h7 : t ≠ 0x40) (h8 : t ≠ 0x53) (h9 : t ≠ 0x43) (h10 : t ≠ 0x5e) (h11 : t ≠ 0x27) (h12 : t ≠ 0x3a)
+    (h13 : t ≠ 0x4d) (h14 : t ≠ 0x38) (h15 : t ≠ 0x42) (h16 : t ≠ 0x48) (h17 : t ≠ 0x21) :
+    convertLine cfg svcbOf (t :: rest) = (parseRecord cfg (t :: rest)).map (recordOut cfg) := by
+  simp only [convertLine, parseRecord, h1, h2, h3, h4, h5, h6, h7, h8, h9, h10, h11, h12, h13, h14,
+    h15, h16, h17, or_self, ↓reduceIte]
+  rfl
+
+/-- The validated codec model is the composition of this file's `DecodeLn` and `MarshalMap`
+(every line type except `!`, which the codec model does not know). -/
 theorem convertLine_eq (cfg : Cfg) (line : Bytes) (h : line.head? ≠ some 0x21) :
     convertLine cfg svcbOf line = (parseRecord cfg line).map (recordOut cfg) := by
   cases line with
   | nil => rfl
   | cons t rest =>
     have ht : t ≠ 0x21 := by simpa using h
-    unfold convertLine parseRecord
-    simp only []
-    repeat' split
-    all_goals first
-      | rfl
-      | simp_all [recordOut, recordKVs, recordSubnet, nsKVs, Except.map, svcbOf]
+    by_cases h1 : t = 0x25; · subst h1; exact cl_net cfg rest
+    by_cases h2 : t = 0x5a; · subst h2; cl_loc
+    by_cases h3 : t = 0x2e; · subst h3; cl_loc
+    by_cases h4 : t = 0x26; · subst h4; cl_loc
+    by_cases h5 : t = 0x2b; · subst h5; cl_loc
+    by_cases h6 : t = 0x3d; · subst h6; cl_loc
+    by_cases h7 : t = 0x40; · subst h7; cl_loc
+    by_cases h8 : t = 0x53; · subst h8; cl_loc
+    by_cases h9 : t = 0x43; · subst h9; cl_loc
+    by_cases h10 : t = 0x5e; · subst h10; cl_loc
+    by_cases h11 : t = 0x27; · subst h11; cl_loc
+    by_cases h12 : t = 0x3a; · subst h12; cl_loc
+    by_cases h13 : t = 0x4d; · subst h13; cl_simp; rfl
+    by_cases h14 : t = 0x38; · subst h14; cl_simp; rfl
+    by_cases h15 : t = 0x42; · subst h15; exact cl_svcb cfg rest
+    by_cases h16 : t = 0x48; · subst h16; exact cl_https cfg rest
+    exact cl_other cfg t rest h1 h2 h3 h4 h5 h6 h7 h8 h9 h10 h11 h12 h13 h14 h15 h16 ht
+
+/-! ### re-splitting a marshalled line -/
+
+theorem idxOf_none (c : UInt8) : ∀ (a : Bytes), c ∉ a → indexOf c a = none := by
+  intro a h
+  unfold indexOf
+  induction a with
+  | nil => rfl
+  | cons x xs ih =>
+    simp only [List.mem_cons, not_or] at h
+    have hx : (x == c) = false := by simpa using fun e => h.1 e.symm
+    simp [List.idxOf?, List.findIdx?_cons, hx] at ih ⊢
+    exact ih h.2
+
+theorem idxOf_append (c : UInt8) (rest : Bytes) : ∀ (a : Bytes), c ∉ a →
+    indexOf c (a ++ c :: rest) = some a.length := by
+  intro a h
+  unfold indexOf
+  induction a with
+  | nil => simp [List.idxOf?, List.findIdx?_cons]
+  | cons x xs ih =>
+    simp only [List.mem_cons, not_or] at h
+    have hx : (x == c) = false := by simpa using fun e => h.1 e.symm
+    simp [List.idxOf?, List.findIdx?_cons, hx] at ih ⊢
+    exact ih h.2
+
+theorem idxOf_gt (c d : UInt8) (hcd : d ≠ c) (rest : Bytes) : ∀ (a : Bytes) (i : Nat), c ∉ a →
+    indexOf c (a ++ d :: rest) = some i → a.length < i := by
+  intro a
+  unfold indexOf
+  induction a with
+  | nil =>
+    intro i _ hi
+    have hx : (d == c) = false := by simpa using hcd
+    simp [List.idxOf?, List.findIdx?_cons, hx] at hi
+    obtain ⟨j, _, rfl⟩ := hi
+    simp
+  | cons x xs ih =>
+    intro i h hi
+    simp only [List.mem_cons, not_or] at h
+    have hx : (x == c) = false := by simpa using fun e => h.1 e.symm
+    simp [List.idxOf?, List.findIdx?_cons, hx] at hi ih
+    obtain ⟨j, hj, rfl⟩ := hi
+    have := ih j h.2 hj
+    simp; omega
+
+theorem splitN_joinSep : ∀ (fs : List Bytes) (n : Nat), fs ≠ [] → fs.length ≤ n →
+    (∀ f ∈ fs, (0x2c : UInt8) ∉ f) → splitN 0x2c n (joinSep fs) = fs := by
+  intro fs
+  induction fs with
+  | nil => intro n h; exact absurd rfl h
+  | cons a rest ih =>
+    intro n _ hlen hc
+    have ha : (0x2c : UInt8) ∉ a := hc a (by simp)
+    cases rest with
+    | nil =>
+      match n, hlen with
+      | 1, _ => rfl
+      | m + 2, _ => simp only [joinSep, splitN, idxOf_none _ a ha]
+    | cons b rest' =>
+      match n, hlen with
+      | m + 2, hlen =>
+        have e : joinSep (a :: b :: rest') = a ++ 0x2c :: joinSep (b :: rest') := by
+          simp [joinSep, sep]
+        rw [e]
+        simp only [splitN, idxOf_append _ _ a ha]
+        rw [List.take_left' rfl]
+        have : List.drop (a.length + 1) (a ++ 0x2c :: joinSep (b :: rest')) = joinSep (b :: rest') := by
+          rw [List.drop_append]; simp
+        rw [this, ih (m + 1) (by simp) (by simp at hlen ⊢; omega) (fun f hf => hc f (by simp [hf]))]
+
+theorem detectSep_joinSep (f0 f1 : Bytes) (rest : List Bytes) (h0c : (0x2c : UInt8) ∉ f0)
+    (h0 : (0x3a : UInt8) ∉ f0) : detectSep (joinSep (f0 :: f1 :: rest)) = 0x2c := by
+  have e : joinSep (f0 :: f1 :: rest) = f0 ++ 0x2c :: joinSep (f1 :: rest) := by simp [joinSep, sep]
+  rw [e]
+  unfold detectSep
+  rw [idxOf_append _ _ f0 h0c]
+  cases hi : indexOf 0x3a (f0 ++ 0x2c :: joinSep (f1 :: rest)) with
+  | none => rfl
+  | some i =>
+    have := idxOf_gt 0x3a 0x2c (by decide) _ f0 i h0 hi
+    simp [this]
+
+/-- (T3) a marshalled line splits into exactly the fields that were written -/
+theorem fields_joinSep (t : UInt8) (f0 f1 : Bytes) (rest : List Bytes)
+    (hlen : (f0 :: f1 :: rest).length ≤ 15) (hc : ∀ f ∈ f0 :: f1 :: rest, (0x2c : UInt8) ∉ f)
+    (h0 : (0x3a : UInt8) ∉ f0) :
+    fields (t :: joinSep (f0 :: f1 :: rest)) =
+      (f0 :: f1 :: rest) ++ List.replicate (15 - (f0 :: f1 :: rest).length) [] := by
+  unfold fields
+  simp only [List.drop_one, List.tail_cons]
+  rw [detectSep_joinSep f0 f1 rest (hc f0 (by simp)) h0]
+  have : Generated.dnsdata_NUMFIELDS = 15 := rfl
+  rw [this, splitN_joinSep _ 15 (by simp) hlen hc]
+
+theorem fld_pad (fs : List Bytes) (k i : Nat) : fld (fs ++ List.replicate k []) i = fs.getD i [] := by
+  unfold fld
+  by_cases h : i < fs.length
+  · simp [List.getD, List.getElem?_append_left h]
+  · have h' : fs.length ≤ i := Nat.le_of_not_lt h
+    simp only [List.getD, List.getElem?_append_right h', List.getElem?_eq_none h']
+    by_cases h2 : i - fs.length < k
+    · simp [h2]
+    · simp [h2]
+
+/-! ### decimal numbers -/
+
+theorem digit_toNat (d : Nat) (h : d < 10) : (digit d).toNat = 48 + d := by
+  unfold digit
+  rw [UInt8.toNat_ofNat']
+  omega
+
+theorem isDigit_digit (d : Nat) (h : d < 10) : isDigit (digit d) = true := by
+  unfold isDigit
+  rw [digit_toNat d h]
+  simp
+  omega
+
+theorem go_decAux (bits : Nat) : ∀ (f n : Nat), n < f → n < 2 ^ bits → ∀ rest : Bytes,
+    parseUint.go bits (decAux f n ++ rest) 0 = parseUint.go bits rest n := by
+  intro f
+  induction f with
+  | zero => intro n h; omega
+  | succ f ih =>
+    intro n hf hb rest
+    unfold decAux
+    by_cases h10 : n < 10
+    · rw [if_pos h10]
+      simp only [List.singleton_append, parseUint.go, isDigit_digit n h10, digit_toNat n h10, if_true]
+      have : 0 * 10 + (48 + n - 48) = n := by omega
+      rw [this, if_pos hb]
+    · rw [if_neg h10, List.append_assoc]
+      have hlt : n / 10 < f := by omega
+      have hb' : n / 10 < 2 ^ bits := Nat.lt_of_le_of_lt (Nat.div_le_self _ _) hb
+      rw [ih (n / 10) hlt hb']
+      have hd : n % 10 < 10 := Nat.mod_lt _ (by decide)
+      simp only [List.singleton_append, parseUint.go, isDigit_digit _ hd, digit_toNat _ hd, if_true]
+      have : n / 10 * 10 + (48 + n % 10 - 48) = n := by omega
+      rw [this, if_pos hb]
+
+theorem decText_ne_nil (n : Nat) : decText n ≠ [] := by
+  unfold decText decAux
+  by_cases h : n < 10
+  · rw [if_pos h]; simp
+  · rw [if_neg h]; simp
+
+theorem parseUint_decText (bits n : Nat) (h : n < 2 ^ bits) : parseUint bits (decText n) = some n := by
+  unfold parseUint
+  have hne := decText_ne_nil n
+  have : (decText n).isEmpty = false := by
+    cases hd : decText n with
+    | nil => exact absurd hd hne
+    | cons _ _ => rfl
+  rw [this]
+  simp only [Bool.false_eq_true, if_false]
+  have := go_decAux bits (n + 1) n (Nat.lt_succ_self n) h []
+  rw [List.append_nil] at this
+  unfold decText
+  rw [this]
+  rfl
+
+theorem getuint_decText (bits n dflt : Nat) (h : n < 2 ^ bits) : getuint bits (decText n) dflt = n := by
+  unfold getuint
+  rw [parseUint_decText bits n h]
+  rfl
+
+theorem getuint_nil (bits dflt : Nat) : getuint bits [] dflt = dflt := rfl
+
+theorem digit_not_sep (d : Nat) (h : d < 10) : digit d ≠ 0x2c ∧ digit d ≠ 0x3a := by
+  have := digit_toNat d h
+  constructor <;> (intro e; rw [e] at this; simp at this; omega)
+
+theorem decAux_no_sep : ∀ (f n : Nat), (0x2c : UInt8) ∉ decAux f n ∧ (0x3a : UInt8) ∉ decAux f n := by
+  intro f
+  induction f with
+  | zero => intro n; simp [decAux]
+  | succ f ih =>
+    intro n
+    unfold decAux
+    by_cases h10 : n < 10
+    · rw [if_pos h10]
+      have := digit_not_sep n h10
+      simp only [List.mem_singleton]
+      exact ⟨fun e => this.1 e.symm, fun e => this.2 e.symm⟩
+    · rw [if_neg h10]
+      have hd : n % 10 < 10 := Nat.mod_lt _ (by decide)
+      have := digit_not_sep _ hd
+      simp only [List.mem_append, List.mem_singleton, not_or]
+      exact ⟨⟨(ih _).1, fun e => this.1 e.symm⟩, ⟨(ih _).2, fun e => this.2 e.symm⟩⟩
+
+theorem decText_no_sep (n : Nat) : (0x2c : UInt8) ∉ decText n ∧ (0x3a : UInt8) ∉ decText n :=
+  decAux_no_sep _ _
+
+/-! ### octal escapes (locations, map ids) -/
+
+theorem unquoteChar_oct (a : UInt8) (rest : Bytes) :
+    Quote.unquoteChar (octText a ++ rest) = .ok (a.toNat, false, rest) := by
+  have ha : a.toNat < 256 := UInt8.toNat_lt a
+  have h0 : a.toNat / 64 < 10 := by omega
+  have h1 : a.toNat / 8 % 8 < 10 := by omega
+  have h2 : a.toNat % 8 < 10 := by omega
+  simp (decide := true) only [octText, List.cons_append, List.nil_append, Quote.unquoteChar,
+    Quote.bslash, if_false, if_true, ite_true, ite_false, ↓reduceIte, ne_eq, not_true_eq_false]
+  unfold Quote.unquoteEsc
+  rw [digit_toNat _ h0]
+  rw [if_neg (by omega), if_neg (by omega), if_neg (by omega), if_neg (by omega), if_neg (by omega),
+    if_neg (by omega), if_neg (by omega), if_neg (by omega), if_neg (by omega), if_neg (by omega),
+    if_pos (by omega)]
+  simp only []
+  rw [digit_toNat _ h1, digit_toNat _ h2]
+  rw [if_pos (by omega), if_neg (by omega)]
+  congr 2
+  omega
+
+theorem unquoteLoop_acc : ∀ (f : Nat) (s acc : Bytes),
+    Quote.unquoteLoop f s acc = (Quote.unquoteLoop f s []).map (acc ++ ·) := by
+  intro f
+  induction f with
+  | zero =>
+    intro s acc
+    cases s <;> simp [Quote.unquoteLoop, Except.map]
+  | succ f ih =>
+    intro s acc
+    cases s with
+    | nil => simp [Quote.unquoteLoop, Except.map]
+    | cons x xs =>
+      unfold Quote.unquoteLoop
+      cases hu : Quote.unquoteChar (x :: xs) with
+      | error e => simp [Except.map]
+      | ok r =>
+        obtain ⟨c, mb, tail⟩ := r
+        simp only []
+        split
+        · rw [ih tail (acc ++ _), ih tail ([] ++ _)]
+          cases Quote.unquoteLoop f tail [] <;> simp [Except.map]
+        · rw [ih tail (acc ++ _), ih tail ([] ++ _)]
+          cases Quote.unquoteLoop f tail [] <;> simp [Except.map]
+
+theorem unquoteLoop_oct (f : Nat) (a : UInt8) (X acc : Bytes) :
+    Quote.unquoteLoop (f + 1) (octText a ++ X) acc = Quote.unquoteLoop f X (acc ++ [a]) := by
+  have h := unquoteChar_oct a X
+  have e : octText a ++ X
+      = 0x5c :: digit (a.toNat / 64) :: digit (a.toNat / 8 % 8) :: digit (a.toNat % 8) :: X := rfl
+  rw [e] at h ⊢
+  conv => lhs; unfold Quote.unquoteLoop
+  rw [h]
+  simp only [Bool.false_eq_true, not_false_eq_true, or_true, if_true, UInt8.ofNat_toNat]
+
+theorem bunquote_oct2 (a b : UInt8) : Quote.bunquote (octText a ++ octText b) = .ok [a, b] := by
+  unfold Quote.bunquote
+  have e1 : (octText a ++ octText b).isEmpty = false := rfl
+  have e2 : (octText a ++ octText b).contains Quote.bslash = true := by
+    simp [octText, Quote.bslash]
+  have e3 : (octText a ++ octText b).length = 7 + 1 := rfl
+  rw [e1, e2, e3]
+  simp only [Bool.false_eq_true, if_false, not_true_eq_false]
+  rw [unquoteLoop_oct]
+  have : octText b = octText b ++ [] := by simp
+  rw [this, unquoteLoop_oct]
+  rfl
+
+theorem getloc_locText (lo : Option Bytes) (h : ∀ l, lo = some l → l.length = 2) :
+    getloc (locText lo) = .ok lo := by
+  cases lo with
+  | none => rfl
+  | some l =>
+    have hl := h l rfl
+    match l, hl with
+    | [a, b], _ =>
+      have e : locText (some [a, b]) = octText a ++ octText b := by simp [locText, List.flatMap]
+      rw [e]
+      unfold getloc
+      rw [bunquote_oct2]
+      rfl
+
+theorem getlmap_lmapText (m : Bytes) (h : m.length = 2) : getlmap (lmapText m) = m := by
+  match m, h with
+  | [a, b], _ =>
+    have e : lmapText [a, b] = octText a ++ octText b := by simp [lmapText, List.flatMap]
+    rw [e]
+    unfold getlmap unq
+    rw [bunquote_oct2]
+    rfl
+
+theorem digit_ne (d : Nat) (h : d < 10) (c : UInt8) (hc : c.toNat < 48 ∨ 57 < c.toNat) : c ≠ digit d := by
+  intro e
+  have := digit_toNat d h
+  rw [← e] at this
+  omega
+
+theorem octText_no_sep (a : UInt8) : (0x2c : UInt8) ∉ octText a ∧ (0x3a : UInt8) ∉ octText a := by
+  have ha : a.toNat < 256 := UInt8.toNat_lt a
+  have h0 : a.toNat / 64 < 10 := by omega
+  have h1 : a.toNat / 8 % 8 < 10 := by omega
+  have h2 : a.toNat % 8 < 10 := by omega
+  simp only [octText, List.mem_cons, List.not_mem_nil, or_false, not_or]
+  exact ⟨⟨by decide, digit_ne _ h0 _ (by decide), digit_ne _ h1 _ (by decide), digit_ne _ h2 _ (by decide)⟩,
+    ⟨by decide, digit_ne _ h0 _ (by decide), digit_ne _ h1 _ (by decide), digit_ne _ h2 _ (by decide)⟩⟩
+
+theorem flatOct_no_sep (l : Bytes) : (0x2c : UInt8) ∉ l.flatMap octText ∧ (0x3a : UInt8) ∉ l.flatMap octText := by
+  induction l with
+  | nil => simp
+  | cons a t ih =>
+    have := octText_no_sep a
+    simp only [List.flatMap_cons, List.mem_append, not_or]
+    exact ⟨⟨this.1, ih.1⟩, ⟨this.2, ih.2⟩⟩
+
+theorem locText_no_sep (lo : Option Bytes) : (0x2c : UInt8) ∉ locText lo ∧ (0x3a : UInt8) ∉ locText lo := by
+  cases lo with
+  | none => simp [locText]
+  | some l => exact flatOct_no_sep l
+
+theorem lmapText_no_sep (m : Bytes) : (0x2c : UInt8) ∉ lmapText m ∧ (0x3a : UInt8) ∉ lmapText m :=
+  flatOct_no_sep m
+
+/-! ### names -/
+
+/-- re-reading a quoted field -/
+theorem unq_bquote (isPrint : Nat → Bool) (b : Bytes) : unq (Quote.bquote isPrint b) = b := by
+  unfold unq
+  rw [Props.C17.bunquote_bquote]
+
+/-- a `*.` written in front of a quoted name is read back as `*.` in front of the name -/
+theorem bunquote_star (q d : Bytes) (h : Quote.bunquote q = .ok d) :
+    Quote.bunquote (0x2a :: 0x2e :: q) = .ok (0x2a :: 0x2e :: d) := by
+  unfold Quote.bunquote at h ⊢
+  by_cases hc : q.contains Quote.bslash = true
+  · have hne : q.isEmpty = false := by
+      cases q with
+      | nil => simp at hc
+      | cons _ _ => rfl
+    rw [hne] at h
+    simp only [Bool.false_eq_true, if_false, hc, not_true_eq_false] at h
+    have hc2 : (0x2a :: 0x2e :: q).contains Quote.bslash = true := by
+      simp only [List.contains_cons, hc, Bool.or_true]
+    have he : (0x2a :: 0x2e :: q).isEmpty = false := rfl
+    rw [he, hc2]
+    simp only [Bool.false_eq_true, if_false, not_true_eq_false, List.length_cons]
+    have s1 : Quote.unquoteLoop (q.length + 1 + 1) (0x2a :: 0x2e :: q) []
+        = Quote.unquoteLoop (q.length + 1) (0x2e :: q) [0x2a] := by
+      conv => lhs; unfold Quote.unquoteLoop
+      simp (decide := true) [Quote.unquoteChar, Quote.bslash]
+    have s2 : Quote.unquoteLoop (q.length + 1) (0x2e :: q) [0x2a]
+        = Quote.unquoteLoop q.length q [0x2a, 0x2e] := by
+      conv => lhs; unfold Quote.unquoteLoop
+      simp (decide := true) [Quote.unquoteChar, Quote.bslash]
+    rw [s1, s2, unquoteLoop_acc, h]
+    rfl
+  · have hc' : q.contains Quote.bslash = false := by simpa using hc
+    have hd : d = q := by
+      by_cases he : q.isEmpty = true
+      · rw [if_pos he] at h; exact (Except.ok.inj h).symm
+      · rw [if_neg he, hc'] at h
+        simp only [Bool.false_eq_true, not_false_eq_true, if_true] at h
+        exact (Except.ok.inj h).symm
+    subst hd
+    have hc2 : (0x2a :: 0x2e :: d).contains Quote.bslash = false := by
+      have hm : Quote.bslash ∉ d := by simpa using hc'
+      have h1 : (Quote.bslash == (0x2a : UInt8)) = false := by decide
+      have h2 : (Quote.bslash == (0x2e : UInt8)) = false := by decide
+      simp only [List.contains_cons, hc', h1, h2, Bool.or_false]
+    have he : (0x2a :: 0x2e :: d).isEmpty = false := rfl
+    rw [he, hc2]
+    simp
+
+theorem getdom_wild (isPrint : Nat → Bool) (dom : Bytes) (wild : Bool)
+    (h : wild = false → ∀ rest, dom ≠ 0x2a :: 0x2e :: rest) :
+    getdom (wildText wild ++ Quote.bquote isPrint dom) = (dom, wild) := by
+  unfold getdom unq
+  cases wild with
+  | true =>
+    have := bunquote_star _ _ (Props.C17.bunquote_bquote isPrint dom)
+    simp only [wildText, if_true, List.cons_append, List.nil_append, this]
+  | false =>
+    simp only [wildText, Bool.false_eq_true, if_false, List.nil_append, Props.C17.bunquote_bquote]
+    have h' := h rfl
+    match dom, h' with
+    | [], _ => rfl
+    | [x], _ => by_cases hx : x = 0x2a <;> simp [hx]
+    | x :: y :: rest, h' =>
+      by_cases hx : x = 0x2a
+      · by_cases hy : y = 0x2e
+        · subst hx; subst hy; exact absurd rfl (h' rest)
+        · subst hx; simp [hy]
+      · simp [hx]
+
+/-! ### well-formed records -/
+
+def LocOK (lo : Option Bytes) : Prop := ∀ l, lo = some l → l.length = 2
+
+/-- the address text reads back as the address (and has no comma): the `net.IP.String` /
+`net.ParseIP` pair is library code, validated by the correspondence runs, not proved here -/
+def IpOK (ip : Option IP) : Prop := parseIP (ipText ip) = ip ∧ (0x2c : UInt8) ∉ ipText ip
+
+/-- `putdomtext` leaves the quoted name as it is: no empty label (leading, doubled or trailing
+dot) and no label whose quoted form is 256 bytes or longer -/
+def Plain (isPrint : Nat → Bool) (d : Bytes) : Prop := domText isPrint d = Quote.bquote isPrint d
+
+def NoStar (d : Bytes) : Prop := ∀ rest, d ≠ 0x2a :: 0x2e :: rest
+
+theorem ipOK_none : IpOK none := by
+  constructor
+  · rfl
+  · simp [ipText]
+
+theorem plain_no_sep {isPrint : Nat → Bool} {d : Bytes} (h : Plain isPrint d) :
+    (0x2c : UInt8) ∉ domText isPrint d ∧ (0x3a : UInt8) ∉ domText isPrint d := by
+  rw [h]; exact Props.C17.bquote_no_comma_colon isPrint d
+
+theorem wild_no_sep (isPrint : Nat → Bool) (wild : Bool) (d : Bytes) :
+    (0x2c : UInt8) ∉ wildText wild ++ Quote.bquote isPrint d ∧
+    (0x3a : UInt8) ∉ wildText wild ++ Quote.bquote isPrint d := by
+  have := Props.C17.bquote_no_comma_colon isPrint d
+  cases wild <;> simp [wildText, this.1, this.2]
+
+theorem unq_plain {isPrint : Nat → Bool} {d : Bytes} (h : Plain isPrint d) :
+    unq (domText isPrint d) = d := by rw [h, unq_bquote]
+
+macro "fld_simp" : tactic => `(tactic|
+  simp only [fld_pad, List.getD, List.getElem?_cons_zero, List.getElem?_cons_succ, Option.getD_some,
+    Option.getD_none, List.getElem?_nil, List.length_cons, List.length_nil])
+
+
+macro "mem_split" : tactic => `(tactic|
+  simp only [List.mem_cons, List.not_mem_nil, or_false, forall_eq_or_imp, forall_eq])
+
+theorem nil_no_sep : (0x2c : UInt8) ∉ ([] : Bytes) := by simp
+
+/-- the fields a well-formed record of each type must satisfy for the text round trip -/
+def WF (isPrint : Nat → Bool) (cfg : Cfg) : Record → Prop
+  | .soa dom ns adm ser ref ret exp min ttl lo =>
+    Plain isPrint dom ∧ Plain isPrint ns ∧ Plain isPrint adm ∧ ser < 2 ^ 32 ∧ ref < 2 ^ 32 ∧
+    ret < 2 ^ 32 ∧ exp < 2 ^ 32 ∧ min < 2 ^ 32 ∧ ttl < 2 ^ 32 ∧ LocOK lo ∧ (ser = 0 → cfg.serial = 0)
+  | .net lo ip ones lmap =>
+    LocOK lo ∧ parseIPNet (ipnetText ip ones) = some (ip, ones) ∧ (0x2c : UInt8) ∉ ipnetText ip ones ∧
+    lmap.length = 2 ∧ (cfg.ranger = true → lo.isSome = true)
+  | .dot dom ip ns ttl lo | .ns dom ip ns ttl lo =>
+    Plain isPrint dom ∧ IpOK ip ∧ Plain isPrint ns ∧ ns.contains 0x2e = true ∧ ttl < 2 ^ 32 ∧ LocOK lo
+  | .addr dom wild ip ttl lo weight =>
+    Plain isPrint dom ∧ (wild = false → NoStar dom) ∧ IpOK ip ∧ ttl < 2 ^ 32 ∧ LocOK lo ∧ weight < 2 ^ 32
+  | .paddr dom wild ip ttl lo =>
+    Plain isPrint dom ∧ (wild = false → NoStar dom) ∧ IpOK ip ∧ ttl < 2 ^ 32 ∧ LocOK lo
+  | .mx dom ip mx dist ttl lo =>
+    Plain isPrint dom ∧ IpOK ip ∧ Plain isPrint mx ∧ mx.contains 0x2e = true ∧ dist < 2 ^ 32 ∧
+    ttl < 2 ^ 32 ∧ LocOK lo
+  | .srv dom ip srv port pri weight ttl lo =>
+    Plain isPrint dom ∧ IpOK ip ∧ Plain isPrint srv ∧ srv.contains 0x2e = true ∧ port < 2 ^ 16 ∧
+    pri < 2 ^ 16 ∧ weight < 2 ^ 16 ∧ ttl < 2 ^ 32 ∧ LocOK lo
+  | .cname dom wild cname ttl lo =>
+    Plain isPrint dom ∧ (wild = false → NoStar dom) ∧ Plain isPrint cname ∧ ttl < 2 ^ 32 ∧ LocOK lo
+  | .ptr dom host ttl lo => Plain isPrint dom ∧ Plain isPrint host ∧ ttl < 2 ^ 32 ∧ LocOK lo
+  | .txt dom wild _ ttl lo =>
+    Plain isPrint dom ∧ (wild = false → NoStar dom) ∧ ttl < 2 ^ 32 ∧ LocOK lo
+  | .aux dom rtype _ ttl lo => Plain isPrint dom ∧ rtype < 2 ^ 16 ∧ ttl < 2 ^ 32 ∧ LocOK lo
+  | .ipmap dom lmap | .csmap dom lmap => Plain isPrint dom ∧ lmap.length = 2
+  | .rangepoint lmap ip maskLen loc =>
+    lmap.length = 2 ∧ parseIP (Svcb.ipString ip) = some ip ∧ (0x2c : UInt8) ∉ Svcb.ipString ip ∧
+    maskLen < 256 ∧ LocOK loc ∧ (loc = none → maskLen = 0)
+  | .svcb .. => False      -- SVCB / HTTPS lines: correspondence only (parameter lists are C18's)
+
+theorem pm_addr (isPrint : Nat → Bool) (cfg : Cfg) (dom : Bytes) (wild : Bool)
+    (ip : Option IP) (ttl : Nat) (lo : Option Bytes) (weight : Nat)
+    (h : WF isPrint cfg (.addr dom wild ip ttl lo weight)) :
+    parseRecord cfg (0x2b :: joinSep [wildText wild ++ domText isPrint dom, ipText ip, decText ttl, [],
+      locText lo, decText weight]) = .ok (.addr dom wild ip ttl lo weight) := by
+  obtain ⟨hd, hw, hip, httl, hlo, hwt⟩ := h
+  rw [hd]
+  have hf := fields_joinSep 0x2b (wildText wild ++ Quote.bquote isPrint dom) (ipText ip)
+    [decText ttl, [], locText lo, decText weight] (by simp)
+    (by mem_split; exact ⟨(wild_no_sep isPrint wild dom).1, hip.2, (decText_no_sep _).1, not_false,
+          (locText_no_sep _).1, (decText_no_sep _).1⟩)
+    (wild_no_sep isPrint wild dom).2
+  cl_simp
+  rw [hf]
+  fld_simp
+  rw [getloc_locText lo hlo]
+  simp only [getdom_wild isPrint dom wild hw, hip.1, getuint_decText 32 ttl _ httl,
+    getuint_decText 32 weight _ hwt]
+
+theorem pm_paddr (isPrint : Nat → Bool) (cfg : Cfg) (dom : Bytes) (wild : Bool)
+    (ip : Option IP) (ttl : Nat) (lo : Option Bytes)
+    (h : WF isPrint cfg (.paddr dom wild ip ttl lo)) :
+    parseRecord cfg (0x3d :: joinSep [wildText wild ++ domText isPrint dom, ipText ip, decText ttl, [],
+      locText lo]) = .ok (.paddr dom wild ip ttl lo) := by
+  obtain ⟨hd, hw, hip, httl, hlo⟩ := h
+  rw [hd]
+  have hf := fields_joinSep 0x3d (wildText wild ++ Quote.bquote isPrint dom) (ipText ip)
+    [decText ttl, [], locText lo] (by simp)
+    (by mem_split; exact ⟨(wild_no_sep isPrint wild dom).1, hip.2, (decText_no_sep _).1, not_false,
+          (locText_no_sep _).1⟩)
+    (wild_no_sep isPrint wild dom).2
+  cl_simp
+  rw [hf]
+  fld_simp
+  rw [getloc_locText lo hlo]
+  simp only [getdom_wild isPrint dom wild hw, hip.1, getuint_decText 32 ttl _ httl]
+
+theorem pm_cname (isPrint : Nat → Bool) (cfg : Cfg) (dom : Bytes) (wild : Bool)
+    (cname : Bytes) (ttl : Nat) (lo : Option Bytes)
+    (h : WF isPrint cfg (.cname dom wild cname ttl lo)) :
+    parseRecord cfg (0x43 :: joinSep [wildText wild ++ domText isPrint dom, domText isPrint cname,
+      decText ttl, [], locText lo]) = .ok (.cname dom wild cname ttl lo) := by
+  obtain ⟨hd, hw, hc, httl, hlo⟩ := h
+  have hcs := plain_no_sep hc
+  rw [hd]
+  have hf := fields_joinSep 0x43 (wildText wild ++ Quote.bquote isPrint dom) (domText isPrint cname)
+    [decText ttl, [], locText lo] (by simp)
+    (by mem_split; exact ⟨(wild_no_sep isPrint wild dom).1, hcs.1, (decText_no_sep _).1, not_false,
+          (locText_no_sep _).1⟩)
+    (wild_no_sep isPrint wild dom).2
+  cl_simp
+  rw [hf]
+  fld_simp
+  rw [getloc_locText lo hlo]
+  simp only [getdom_wild isPrint dom wild hw, unq_plain hc, getuint_decText 32 ttl _ httl]
+
+theorem pm_txt (isPrint : Nat → Bool) (cfg : Cfg) (dom : Bytes) (wild : Bool)
+    (txt : Bytes) (ttl : Nat) (lo : Option Bytes)
+    (h : WF isPrint cfg (.txt dom wild txt ttl lo)) :
+    parseRecord cfg (0x27 :: joinSep [wildText wild ++ domText isPrint dom, Quote.bquote isPrint txt,
+      decText ttl, [], locText lo]) = .ok (.txt dom wild txt ttl lo) := by
+  obtain ⟨hd, hw, httl, hlo⟩ := h
+  have hcs := Props.C17.bquote_no_comma_colon isPrint txt
+  rw [hd]
+  have hf := fields_joinSep 0x27 (wildText wild ++ Quote.bquote isPrint dom) (Quote.bquote isPrint txt)
+    [decText ttl, [], locText lo] (by simp)
+    (by mem_split; exact ⟨(wild_no_sep isPrint wild dom).1, hcs.1, (decText_no_sep _).1, not_false,
+          (locText_no_sep _).1⟩)
+    (wild_no_sep isPrint wild dom).2
+  cl_simp
+  rw [hf]
+  fld_simp
+  rw [getloc_locText lo hlo]
+  simp only [getdom_wild isPrint dom wild hw, unq_bquote, getuint_decText 32 ttl _ httl]
+
+theorem pm_ptr (isPrint : Nat → Bool) (cfg : Cfg) (dom host : Bytes) (ttl : Nat) (lo : Option Bytes)
+    (h : WF isPrint cfg (.ptr dom host ttl lo)) :
+    parseRecord cfg (0x5e :: joinSep [domText isPrint dom, domText isPrint host,
+      decText ttl, [], locText lo]) = .ok (.ptr dom host ttl lo) := by
+  obtain ⟨hd, hc, httl, hlo⟩ := h
+  have hds := plain_no_sep hd
+  have hcs := plain_no_sep hc
+  have hf := fields_joinSep 0x5e (domText isPrint dom) (domText isPrint host)
+    [decText ttl, [], locText lo] (by simp)
+    (by mem_split; exact ⟨hds.1, hcs.1, (decText_no_sep _).1, not_false, (locText_no_sep _).1⟩)
+    hds.2
+  cl_simp
+  rw [hf]
+  fld_simp
+  rw [getloc_locText lo hlo]
+  simp only [unq_plain hd, unq_plain hc, getuint_decText 32 ttl _ httl]
+
+theorem pm_aux (isPrint : Nat → Bool) (cfg : Cfg) (dom : Bytes) (rtype : Nat) (rdata : Bytes)
+    (ttl : Nat) (lo : Option Bytes) (h : WF isPrint cfg (.aux dom rtype rdata ttl lo)) :
+    parseRecord cfg (0x3a :: joinSep [domText isPrint dom, decText rtype, Quote.bquote isPrint rdata,
+      decText ttl, [], locText lo]) = .ok (.aux dom rtype rdata ttl lo) := by
+  obtain ⟨hd, hrt, httl, hlo⟩ := h
+  have hds := plain_no_sep hd
+  have hcs := Props.C17.bquote_no_comma_colon isPrint rdata
+  have hf := fields_joinSep 0x3a (domText isPrint dom) (decText rtype)
+    [Quote.bquote isPrint rdata, decText ttl, [], locText lo] (by simp)
+    (by mem_split; exact ⟨hds.1, (decText_no_sep _).1, hcs.1, (decText_no_sep _).1, not_false,
+          (locText_no_sep _).1⟩)
+    hds.2
+  cl_simp
+  rw [hf]
+  fld_simp
+  rw [getloc_locText lo hlo]
+  have h32 : rtype < 2 ^ 32 := Nat.lt_of_lt_of_le hrt (by decide)
+  simp only [unq_plain hd, unq_bquote, getuint_decText 32 ttl _ httl, getuint_decText 32 rtype _ h32,
+    Nat.mod_eq_of_lt (show rtype < 65536 from hrt)]
+
+theorem pm_ipmap (isPrint : Nat → Bool) (cfg : Cfg) (dom lmap : Bytes)
+    (h : WF isPrint cfg (.ipmap dom lmap)) :
+    parseRecord cfg (0x4d :: joinSep [domText isPrint dom, lmapText lmap]) = .ok (.ipmap dom lmap) := by
+  obtain ⟨hd, hl⟩ := h
+  have hds := plain_no_sep hd
+  have hf := fields_joinSep 0x4d (domText isPrint dom) (lmapText lmap) [] (by simp)
+    (by mem_split; exact ⟨hds.1, (lmapText_no_sep _).1⟩) hds.2
+  cl_simp
+  rw [hf]
+  fld_simp
+  simp only [unq_plain hd, getlmap_lmapText lmap hl]
+
+theorem pm_csmap (isPrint : Nat → Bool) (cfg : Cfg) (dom lmap : Bytes)
+    (h : WF isPrint cfg (.csmap dom lmap)) :
+    parseRecord cfg (0x38 :: joinSep [domText isPrint dom, lmapText lmap]) = .ok (.csmap dom lmap) := by
+  obtain ⟨hd, hl⟩ := h
+  have hds := plain_no_sep hd
+  have hf := fields_joinSep 0x38 (domText isPrint dom) (lmapText lmap) [] (by simp)
+    (by mem_split; exact ⟨hds.1, (lmapText_no_sep _).1⟩) hds.2
+  cl_simp
+  rw [hf]
+  fld_simp
+  simp only [unq_plain hd, getlmap_lmapText lmap hl]
+
+theorem expandName_dot (x tag dom : Bytes) (h : x.contains 0x2e = true) : expandName x tag dom = x := by
+  unfold expandName; rw [if_pos h]
+
+theorem pm_soa (isPrint : Nat → Bool) (cfg : Cfg) (dom ns adm : Bytes) (ser ref ret exp min ttl : Nat)
+    (lo : Option Bytes) (h : WF isPrint cfg (.soa dom ns adm ser ref ret exp min ttl lo)) :
+    parseRecord cfg (0x5a :: joinSep [domText isPrint dom, domText isPrint ns, domText isPrint adm,
+      if ser ≠ 0 then decText ser else [], decText ref, decText ret, decText exp, decText min,
+      decText ttl, [], locText lo]) = .ok (.soa dom ns adm ser ref ret exp min ttl lo) := by
+  obtain ⟨hd, hn, ha, hser, href, hret, hexp, hmin, httl, hlo, hs0⟩ := h
+  have hds := plain_no_sep hd
+  have hns := plain_no_sep hn
+  have has := plain_no_sep ha
+  have hsf : (0x2c : UInt8) ∉ (if ser ≠ 0 then decText ser else []) := by
+    split
+    · exact (decText_no_sep _).1
+    · simp
+  have hf := fields_joinSep 0x5a (domText isPrint dom) (domText isPrint ns)
+    [domText isPrint adm, if ser ≠ 0 then decText ser else [], decText ref, decText ret, decText exp,
+      decText min, decText ttl, [], locText lo] (by simp)
+    (by mem_split; exact ⟨hds.1, hns.1, has.1, hsf, (decText_no_sep _).1, (decText_no_sep _).1,
+          (decText_no_sep _).1, (decText_no_sep _).1, (decText_no_sep _).1, not_false,
+          (locText_no_sep _).1⟩)
+    hds.2
+  cl_simp
+  rw [hf]
+  fld_simp
+  rw [getloc_locText lo hlo]
+  have hsr : getuint 32 (if ser ≠ 0 then decText ser else []) cfg.serial = ser := by
+    by_cases h0 : ser = 0
+    · rw [if_neg (by simpa using h0), getuint_nil, hs0 h0, h0]
+    · rw [if_pos h0, getuint_decText 32 ser _ hser]
+  simp only [unq_plain hd, unq_plain hn, unq_plain ha, hsr, getuint_decText 32 _ _ href,
+    getuint_decText 32 _ _ hret, getuint_decText 32 _ _ hexp, getuint_decText 32 _ _ hmin,
+    getuint_decText 32 _ _ httl]
+
+theorem pm_ns (isPrint : Nat → Bool) (cfg : Cfg) (dom : Bytes) (ip : Option IP) (ns : Bytes) (ttl : Nat)
+    (lo : Option Bytes) (h : WF isPrint cfg (.ns dom ip ns ttl lo)) :
+    parseRecord cfg (0x26 :: joinSep [domText isPrint dom, ipText ip, domText isPrint ns, decText ttl, [],
+      locText lo]) = .ok (.ns dom ip ns ttl lo) := by
+  obtain ⟨hd, hip, hn, hdot, httl, hlo⟩ := h
+  have hds := plain_no_sep hd
+  have hns := plain_no_sep hn
+  have hf := fields_joinSep 0x26 (domText isPrint dom) (ipText ip)
+    [domText isPrint ns, decText ttl, [], locText lo] (by simp)
+    (by mem_split; exact ⟨hds.1, hip.2, hns.1, (decText_no_sep _).1, not_false, (locText_no_sep _).1⟩)
+    hds.2
+  cl_simp
+  rw [hf]
+  fld_simp
+  rw [getloc_locText lo hlo]
+  simp only [unq_plain hd, unq_plain hn, expandName_dot _ _ _ hdot, hip.1, getuint_decText 32 _ _ httl]
+
+theorem pm_dot (isPrint : Nat → Bool) (cfg : Cfg) (dom : Bytes) (ip : Option IP) (ns : Bytes) (ttl : Nat)
+    (lo : Option Bytes) (h : WF isPrint cfg (.dot dom ip ns ttl lo)) :
+    parseRecord cfg (0x2e :: joinSep [domText isPrint dom, ipText ip, domText isPrint ns, decText ttl, [],
+      locText lo]) = .ok (.dot dom ip ns ttl lo) := by
+  obtain ⟨hd, hip, hn, hdot, httl, hlo⟩ := h
+  have hds := plain_no_sep hd
+  have hns := plain_no_sep hn
+  have hf := fields_joinSep 0x2e (domText isPrint dom) (ipText ip)
+    [domText isPrint ns, decText ttl, [], locText lo] (by simp)
+    (by mem_split; exact ⟨hds.1, hip.2, hns.1, (decText_no_sep _).1, not_false, (locText_no_sep _).1⟩)
+    hds.2
+  cl_simp
+  rw [hf]
+  fld_simp
+  rw [getloc_locText lo hlo]
+  simp only [unq_plain hd, unq_plain hn, expandName_dot _ _ _ hdot, hip.1, getuint_decText 32 _ _ httl]
+
+theorem pm_mx (isPrint : Nat → Bool) (cfg : Cfg) (dom : Bytes) (ip : Option IP) (mx : Bytes)
+    (dist ttl : Nat) (lo : Option Bytes) (h : WF isPrint cfg (.mx dom ip mx dist ttl lo)) :
+    parseRecord cfg (0x40 :: joinSep [domText isPrint dom, ipText ip, domText isPrint mx, decText dist,
+      decText ttl, [], locText lo]) = .ok (.mx dom ip mx dist ttl lo) := by
+  obtain ⟨hd, hip, hn, hdot, hdist, httl, hlo⟩ := h
+  have hds := plain_no_sep hd
+  have hns := plain_no_sep hn
+  have hf := fields_joinSep 0x40 (domText isPrint dom) (ipText ip)
+    [domText isPrint mx, decText dist, decText ttl, [], locText lo] (by simp)
+    (by mem_split; exact ⟨hds.1, hip.2, hns.1, (decText_no_sep _).1, (decText_no_sep _).1, not_false,
+          (locText_no_sep _).1⟩)
+    hds.2
+  cl_simp
+  rw [hf]
+  fld_simp
+  rw [getloc_locText lo hlo]
+  simp only [unq_plain hd, unq_plain hn, expandName_dot _ _ _ hdot, hip.1, getuint_decText 32 _ _ httl,
+    getuint_decText 32 _ _ hdist]
+
+theorem pm_srv (isPrint : Nat → Bool) (cfg : Cfg) (dom : Bytes) (ip : Option IP) (srv : Bytes)
+    (port pri weight ttl : Nat) (lo : Option Bytes)
+    (h : WF isPrint cfg (.srv dom ip srv port pri weight ttl lo)) :
+    parseRecord cfg (0x53 :: joinSep [domText isPrint dom, ipText ip, domText isPrint srv, decText port,
+      decText pri, decText weight, decText ttl, [], locText lo])
+      = .ok (.srv dom ip srv port pri weight ttl lo) := by
+  obtain ⟨hd, hip, hn, hdot, hport, hpri, hwt, httl, hlo⟩ := h
+  have hds := plain_no_sep hd
+  have hns := plain_no_sep hn
+  have hf := fields_joinSep 0x53 (domText isPrint dom) (ipText ip)
+    [domText isPrint srv, decText port, decText pri, decText weight, decText ttl, [], locText lo] (by simp)
+    (by mem_split; exact ⟨hds.1, hip.2, hns.1, (decText_no_sep _).1, (decText_no_sep _).1,
+          (decText_no_sep _).1, (decText_no_sep _).1, not_false, (locText_no_sep _).1⟩)
+    hds.2
+  cl_simp
+  rw [hf]
+  fld_simp
+  rw [getloc_locText lo hlo]
+  simp only [unq_plain hd, unq_plain hn, expandName_dot _ _ _ hdot, hip.1, getuint_decText 32 _ _ httl,
+    getuint_decText 16 _ _ hport, getuint_decText 16 _ _ hpri, getuint_decText 16 _ _ hwt]
+
+theorem pm_net (isPrint : Nat → Bool) (cfg : Cfg) (lo : Option Bytes) (ip : IP) (ones : Nat) (lmap : Bytes)
+    (h : WF isPrint cfg (.net lo ip ones lmap)) :
+    parseRecord cfg (0x25 :: joinSep [locText lo, ipnetText ip ones, lmapText lmap])
+      = .ok (.net lo ip ones lmap) := by
+  obtain ⟨hlo, hnet, hnc, hl, hr⟩ := h
+  have hf := fields_joinSep 0x25 (locText lo) (ipnetText ip ones) [lmapText lmap] (by simp)
+    (by mem_split; exact ⟨(locText_no_sep _).1, hnc, (lmapText_no_sep _).1⟩)
+    (locText_no_sep _).2
+  cl_simp
+  rw [hf]
+  fld_simp
+  rw [getloc_locText lo hlo]
+  simp only [hnet, getlmap_lmapText lmap hl]
+  by_cases hrg : cfg.ranger = true
+  · have := hr hrg
+    cases lo with
+    | none => simp at this
+    | some l => simp
+  · simp [hrg]
+
+/-- (T4) the range-point line: parse ∘ marshal. A point without location keeps no mask length. -/
+theorem pm_rangepoint_none (isPrint : Nat → Bool) (cfg : Cfg) (lmap : Bytes) (ip : IP) (maskLen : Nat)
+    (hl : lmap.length = 2) (hip : parseIP (Svcb.ipString ip) = some ip)
+    (hc : (0x2c : UInt8) ∉ Svcb.ipString ip) :
+    parseRecord cfg (0x21 :: joinSep [lmapText lmap, Svcb.ipString ip])
+      = .ok (.rangepoint lmap ip 0 none) := by
+  have _ := isPrint; have _ := maskLen
+  have hf := fields_joinSep 0x21 (lmapText lmap) (Svcb.ipString ip) [] (by simp)
+    (by mem_split; exact ⟨(lmapText_no_sep _).1, hc⟩)
+    (lmapText_no_sep _).2
+  cl_simp
+  rw [hf]
+  unfold parseRangePoint
+  fld_simp
+  simp only [getlmap_lmapText lmap hl, hip, getuint_nil]
+  rfl
+
+theorem pm_rangepoint_some (isPrint : Nat → Bool) (cfg : Cfg) (lmap : Bytes) (ip : IP) (maskLen : Nat)
+    (l : Bytes) (hl : lmap.length = 2) (hip : parseIP (Svcb.ipString ip) = some ip)
+    (hc : (0x2c : UInt8) ∉ Svcb.ipString ip) (hm : maskLen < 256) (hlo : l.length = 2) :
+    parseRecord cfg (0x21 :: joinSep [lmapText lmap, Svcb.ipString ip,
+        decText (if isV4 ip then (maskLen + 160) % 256 else maskLen), locText (some l)])
+      = .ok (.rangepoint lmap ip maskLen (some l)) := by
+  have _ := isPrint
+  have hf := fields_joinSep 0x21 (lmapText lmap) (Svcb.ipString ip)
+    [decText (if isV4 ip then (maskLen + 160) % 256 else maskLen), locText (some l)] (by simp)
+    (by mem_split; exact ⟨(lmapText_no_sep _).1, hc, (decText_no_sep _).1, (locText_no_sep _).1⟩)
+    (lmapText_no_sep _).2
+  cl_simp
+  rw [hf]
+  unfold parseRangePoint
+  fld_simp
+  have hlo' : LocOK (some l) := by intro l' e; cases e; exact hlo
+  rw [getloc_locText (some l) hlo']
+  have hm8 : (if isV4 ip then (maskLen + 160) % 256 else maskLen) < 2 ^ 8 := by
+    split
+    · exact Nat.mod_lt _ (by decide)
+    · exact hm
+  simp only [getlmap_lmapText lmap hl, hip, getuint_decText 8 _ _ hm8, Option.isSome_some, true_and,
+    Option.getD_some]
+  by_cases h4 : isV4 ip = true
+  · simp only [h4, if_true]
+    have : ((maskLen + 160) % 256 + 96) % 256 = maskLen := by omega
+    rw [this]
+  · simp only [h4, Bool.false_eq_true, if_false]
 
 end DnsVerif.MarshalText
